@@ -16,7 +16,7 @@ EXPLANATION = (
     "outside those constructors; (R3) Ord::cmp on all pairs of legal values (including -0.0 vs +0.0) equals the "
     "numeric order, agrees with partial_cmp and ==, and never panics; (R4) MultiObjective::partial_cmp over all "
     "vectors of length 0..2 over {-0.0, +0.0, 1, +inf} (thorough: also -1 and length 3; including unequal lengths) is the Pareto table: identical => Equal, "
-    "dominating => Less, dominated => Greater, trade-off or different length => None. NOT decided: transitivity "
+    "dominating => Less, dominated => Greater, trade-off or different length => None. The equality of objective vectors the Pareto comparison starts from is identity of the vectors (lengths included). NOT decided: transitivity "
     "and antisymmetry as universally quantified statements over all floats (they follow from R4 and IEEE order).")
 ASSUMPTIONS = ["IEEE-754 semantics of f64 comparison and arithmetic as modelled by the host's floats"]
 
